@@ -314,6 +314,37 @@ def main():
     def owned(v):
         m = re.search(r' prop=(C\d+)', v)
         return (m is None) or (m.group(1) == prop)
+    # concurrent stress scenarios, run from the harness built with the race detector
+    stress_info = {}
+    for sname in cfg.get('stress', []):
+        rc, sout, dt = run(['go', 'build', '-race', '-tags', 'verif', '-o', BUILD + '/vharness-race', '.'], cwd=V + '/harness', env=GOENV, timeout=900)
+        if rc != 0:
+            harness_err = 'race build failed: ' + sout[-1500:]
+            break
+        rc, sout, dt = run([BUILD + '/vharness-race', 'stress', sname, str(seed), tier], timeout=3000, cwd=BUILD,
+                           env=dict(os.environ, GORACE='halt_on_error=0 exitcode=66'))
+        log['stress_s'] = round(log.get('stress_s', 0) + dt, 1)
+        sres = {'n': 0, 'mismatch': [], 'specviol': [], 'classes': {}, 'file': '', 'harness_out': sout[-400:]}
+        for ln in sout.split('\n'):
+            if ln.startswith('IMPLVIOL '):
+                sres['specviol'].append(ln[9:])
+            m = re.match(r'stress rounds=(\d+) (.*)', ln)
+            if m:
+                sres['n'] = int(m.group(1))
+                sres['classes']['stress/rounds'] = int(m.group(1))
+                for kv in m.group(2).split():
+                    k, _, v = kv.partition('=')
+                    if v.isdigit():
+                        sres['classes']['stress/' + k] = int(v)
+        if 'DATA RACE' in sout:
+            i = sout.index('WARNING: DATA RACE')
+            rep = sout[i:i + 1800].replace('\n', ' | ')
+            sres['specviol'].append('stress %s :: the race detector reports a data race: %s prop=%s key=data-race' % (sname, rep[:1500], prop))
+        elif rc not in (0,) and not sres['specviol']:
+            harness_err = 'stress run failed (exit %d): %s' % (rc, sout[-1500:])
+        results.append(sres)
+        stress_info[sname] = sout[-300:]
+
     specviol = [v for r in results for v in r['specviol'] if owned(v)]
     mismatch = [v for r in results for v in r['mismatch']]
     n_cases = sum(r['n'] for r in results)
